@@ -466,6 +466,36 @@ def replay_printers(fn, model):
                             detail='%s: observed %s; the statement requires %s (%d real calls tried, the first is the counter-model)' % (
                                 inp, bad[0], bad[1], len(seen)))
         return dict(confirmed=False, detail='the real printer satisfies the statement on the counter-model and on %d neighbouring inputs' % len(seen))
+    if fn == 'general_identifier':
+        import sys as _sys
+        import types as _types
+        added = []
+        for name in ('_pvfpriv', 'pvfpriv', 'pvfpkg', 'pvfpkg.sub'):
+            if name not in _sys.modules:
+                _sys.modules[name] = _types.ModuleType(name)
+                added.append(name)
+        try:
+            cases = []
+            for mod in ('_pvfpriv', 'pvfpriv', 'pvfpkg.sub', '__main__', 'builtins', '_unloaded_private', '__dunder'):
+                for qual in ('Thing', 'Outer.Inner'):
+                    c = type(qual.split('.')[-1], (), {})
+                    c.__module__, c.__qualname__ = mod, qual
+                    cases.append((c, qual if mod in ('__main__', 'builtins') else mod + '.' + qual))
+            cases += [(len, 'len'), (int, 'int'), (dict.fromkeys, 'dict.fromkeys')]
+            for obj, want in cases:
+                try:
+                    got = _render_doc(P.general_identifier(obj))
+                except Exception as e:      # noqa
+                    got = 'raised %r' % e
+                if got != want:
+                    inp = 'general_identifier(<%s with __module__=%r, __qualname__=%r>) while the modules _pvfpriv, pvfpriv, pvfpkg.sub are loaded' % (
+                        type(obj).__name__, getattr(obj, '__module__', None), getattr(obj, '__qualname__', None))
+                    return dict(confirmed=True, input=inp, observed=got, required=want,
+                                detail='%s printed %r; the statement requires the own qualified name %r' % (inp, got, want))
+        finally:
+            for name in added:
+                _sys.modules.pop(name, None)
+        return dict(confirmed=False, detail='the real general_identifier names %d classes / callables by their own module and qualname' % len(cases))
     if fn == 'pretty_dict':
         # the statement-level oracles of the bounded stand-ins of C10 / C11, on dicts chosen for what pretty_dict's contract speaks about:
         # container keys, nested values, limits around the length, sorted keys, commented values at narrow widths
